@@ -69,10 +69,24 @@ char *_json_c_strerror(int errno_in)
 	int start_idx;
 	char digbuf[20];
 	int ii, jj;
+	int enable;
 
-	if (!_json_c_strerror_enable)
-		_json_c_strerror_enable = (getenv("_JSON_C_STRERROR_ENABLE") == NULL) ? -1 : 1;
-	if (_json_c_strerror_enable == -1)
+	/* Threads reporting errors at the same time all get here: read and set the flag atomically */
+#if defined(__ATOMIC_RELAXED)
+	enable = __atomic_load_n(&_json_c_strerror_enable, __ATOMIC_RELAXED);
+#else
+	enable = _json_c_strerror_enable;
+#endif
+	if (!enable)
+	{
+		enable = (getenv("_JSON_C_STRERROR_ENABLE") == NULL) ? -1 : 1;
+#if defined(__ATOMIC_RELAXED)
+		__atomic_store_n(&_json_c_strerror_enable, enable, __ATOMIC_RELAXED);
+#else
+		_json_c_strerror_enable = enable;
+#endif
+	}
+	if (enable == -1)
 		return strerror(errno_in);
 
 	// Avoid standard functions, so we don't need to include any
